@@ -75,6 +75,12 @@ Shapes ==
   \cup {[cls |-> "call", proc |-> "vprc", target |-> 0], [cls |-> "ret"]}
   \cup {[cls |-> "int", n |-> n] : n \in {3, 16, 33}}
   \cup {[cls |-> "string", op |-> s[1], w |-> w, rep |-> s[2], repmn |-> s[3]] : s \in StringSpellings, w \in {8, 16}}
+  \* every register name once as destination and once as source (both cases are rendered by the harness)
+  \cup {[cls |-> "mov", w |-> 8, dst |-> R8(r), src |-> Imm(5)] : r \in Reg8s}
+  \cup {[cls |-> "mov", w |-> 16, dst |-> R16(r), src |-> Imm(300)] : r \in Reg16s}
+  \cup {[cls |-> "mov", w |-> 8, dst |-> R8("dl"), src |-> R8(r)] : r \in Reg8s}
+  \cup {[cls |-> "mov", w |-> 16, dst |-> R16("dx"), src |-> R16(r)] : r \in Reg16s}
+  \cup {[cls |-> "xchg", w |-> 16, a |-> R16(r), b |-> R16("si")] : r \in Reg16s}
   \cup {[cls |-> "print", what |-> wt] : wt \in {[k |-> "flags"], [k |-> "reg"], [k |-> "range", a |-> 3, b |-> 20],
                                                  [k |-> "span", a |-> 16, n |-> 5], [k |-> "dsspan", n |-> 17]}}
 
@@ -138,7 +144,18 @@ BadMemVariants(s) ==
   (IF "dst" \in DOMAIN s THEN {[s EXCEPT !.dst = x] : x \in BadMem(s.dst)} ELSE {})
   \cup (IF "src" \in DOMAIN s THEN {[s EXCEPT !.src = x] : x \in BadMem(s.src)} ELSE {})
 
-BadShapes == UNION {BadVariants(s) : s \in Accepted}
+\* the candidates of the shape set that the operand-kind tables refuse: mixed widths, two memory operands, ...
+\* The width field of a shape is written in the source only through the byte/word keyword of a memory
+\* operand.  A candidate without such an operand whose registers agree on another width reads as a
+\* different, valid instruction: it is not an ill-typed *text* and is left out.
+OperandFields(s) == {f \in {"dst", "src", "a", "b"} : f \in DOMAIN s}
+RegWidth(o) == IF o.k = "reg8" THEN 8 ELSE IF o.k \in {"reg16", "sreg"} THEN 16 ELSE 0
+Retyped(s) ==
+  IF "w" \notin DOMAIN s \/ \E f \in OperandFields(s) : s[f].k \in {"mem", "label"} THEN s
+  ELSE LET ws == {RegWidth(s[f]) : f \in OperandFields(s)} \ {0}
+       IN IF Cardinality(ws) = 1 THEN [s EXCEPT !.w = CHOOSE x \in ws : TRUE] ELSE s
+IllTyped == {s \in Shapes \ Accepted : ~InsOK(Retyped(s), Env)}
+BadShapes == IllTyped \cup UNION {BadVariants(s) : s \in Accepted}
              \cup UNION {BadMemVariants(s) : s \in {x \in Accepted : x.cls \in {"mov", "unarith", "lea", "push"}}}
 InitBad == shape \in BadShapes
 SpecBad == InitBad /\ [][Next]_vars
